@@ -1,7 +1,51 @@
 import CogentModel.Json
-open CogentModel
+import CogentModel.Model.View
+import CogentModel.Model.FeatureView
+import CogentModel.Spec.FeatureView
+open CogentModel CogentModel.View CogentModel.FeatureView
 
-def handle (cmd : String) (_j : J) : Except String J :=
-  throw s!"unknown command {cmd}"
+def ferrStr : FErr → String
+  | .valueError => "ValueError"
+  | .indexError => "IndexError"
+  | .assertionError => "AssertionError"
+  | .runtimeError => "RuntimeError"
+
+def errJ (e : FErr) : J := J.obj [("err", J.str (ferrStr e))]
+
+def parseView (j : J) : Except String View := do
+  pure { start := ← (← j.get "start").toInt, stop := ← (← j.get "stop").toInt,
+         step := ← (← j.get "step").toInt, offset := ← (← j.get "offset").toInt,
+         seqLen := ← (← j.get "seq_len").toInt }
+
+def parseSpans (j : J) : Except String (List (Int × Int)) := j.toListOf (J.toPairOf J.toInt J.toInt)
+
+def mspanJ : MSpan → J
+  | .span s e => J.arr [J.num s, J.num e]
+  | .lost n => J.arr [J.str "lost", J.num n]
+
+def handle (cmd : String) (j : J) : Except String J :=
+  match cmd with
+  | "window" => do
+    let v ← parseView (← j.get "view")
+    let a ← ((j.get? "start").getD .null).toOptInt
+    let b ← ((j.get? "stop").getD .null).toOptInt
+    match queryWindow v a b with
+    | .ok (qs, qe) => pure (J.arr [J.num qs, J.num qe])
+    | .error e => pure (errJ e)
+  | "feature" => do
+    let v ← parseView (← j.get "view")
+    let minus ← (← j.get "minus").toBool
+    let spans ← parseSpans (← j.get "spans")
+    match featureOnView v minus spans with
+    | .error e => pure (errJ e)
+    | .ok f =>
+      let (ps, comp) := slicePositions v f
+      pure (J.obj [("spans", J.arr (f.spans.map mspanJ)), ("reversed", J.bool f.reversed),
+                   ("pos", J.arr (ps.map J.num)), ("comp", J.bool comp)])
+  | "denote" => do
+    let spans ← parseSpans (← j.get "spans")
+    let (ps, comp) := FeatureSpec.denote spans (← (← j.get "minus").toBool) (← (← j.get "p0").toInt) (← (← j.get "p1").toInt)
+    pure (J.obj [("pos", J.arr (ps.map J.num)), ("comp", J.bool comp)])
+  | _ => throw s!"unknown command {cmd}"
 
 def main : IO Unit := driverLoop handle
